@@ -13,10 +13,12 @@ package safelog
 
 import (
 	"bytes"
+	"encoding/hex"
 	"fmt"
 	"math/rand"
 	"net"
 	"os"
+	"os/exec"
 	"path/filepath"
 	"regexp"
 	"regexp/syntax"
@@ -876,6 +878,39 @@ func sortedTags(m map[string]bool, prefix string) string {
 	return strings.Join(ks, "+")
 }
 
+// TestC07ChildScrubFirst: a process whose very first use of the package is a direct Scrub call (as the event
+// String() methods do), before any LogScrubber was written to.
+func TestC07ChildScrubFirst(t *testing.T) {
+	in := os.Getenv("VERIF_C07_CHILD")
+	if in == "" {
+		t.Skip("child of TestVerifC07 only")
+	}
+	b, _ := hex.DecodeString(in)
+	fmt.Printf("C07CHILD %s\n", hex.EncodeToString(Scrub(b)))
+}
+
+func c07ScrubFirst(c *c07) {
+	for _, text := range []string{"dial tcp 203.0.113.7:443: i/o timeout\n", "peer [2001:db8::1]:9001 and 10.1.2.3, done\n", "no address here\n"} {
+		cmd := exec.Command(os.Args[0], "-test.run", "^TestC07ChildScrubFirst$", "-test.count=1")
+		cmd.Env = append(os.Environ(), "VERIF_C07_CHILD="+hex.EncodeToString([]byte(text)), "VERIF_OUT=")
+		outb, _ := cmd.CombinedOutput()
+		got := "process-failed"
+		for _, l := range strings.Split(string(outb), "\n") {
+			if strings.HasPrefix(l, "C07CHILD ") {
+				got = strings.TrimPrefix(l, "C07CHILD ")
+			}
+		}
+		line := "c07 scrub (first call of a fresh process) " + vh.Hex([]byte(text))
+		c.r.Case("scrub/first-call-of-a-process", line, true)
+		(&LogScrubber{Output: &bytes.Buffer{}}).Write([]byte("warm-up 192.0.2.1\n")) // this process has used the writer
+		want := hex.EncodeToString(Scrub([]byte(text)))
+		if got != want {
+			c.r.OracleFail("scrub-depends-on-earlier-use", line, fmt.Sprintf("fresh process: %q, this process (after the writer was used): %q", got, want),
+				"Scrub must remove addresses whether or not a LogScrubber has been written to before")
+		}
+	}
+}
+
 func TestVerifC07(t *testing.T) {
 	r := vh.Start("C07")
 	defer r.Finish()
@@ -908,6 +943,7 @@ func TestVerifC07(t *testing.T) {
 			return vh.Hex(out.Bytes()) + " | Scrub: " + vh.Hex(Scrub([]byte(text)))
 		})
 	}
+	c07ScrubFirst(c)
 	var ok1, ok2 bool
 	c.fullW, ok1 = wireOf(fullAddrPattern)
 	c.addrW, ok2 = wireOf(addressPattern)
@@ -981,7 +1017,10 @@ func TestVerifC07(t *testing.T) {
 		}
 	}
 	for i := 0; i < r.N(36, 600); i++ {
-		c.longLine = []int{512, 1024, 2048, 4096, 8192, 16384}[i%6]
+		c.longLine = []int{512, 1024, 2048, 4096, 8192, 16384, 32768, 65536, 131072, 262144, 1 << 20}[i%11]
+		if c.longLine > 16384 && i >= 22 && !r.Thorough() {
+			continue // the largest sizes twice each in the quick tier
+		}
 		c.writerCase(g, nil)
 	}
 	c.longLine = 0
